@@ -17,7 +17,7 @@ class HarnessError(Exception):
 
 
 class Zygote:
-    def __init__(self, hashseed, errlog="-", repo=None, label=""):
+    def __init__(self, hashseed, errlog="-", repo=None, label="", wait=True):
         a, b = socket.socketpair()
         env = {
             "PATH": os.environ.get("PATH", "/usr/bin:/bin"),
@@ -41,14 +41,22 @@ class Zygote:
         )
         b.close()
         self.sock = a
+        self.errlog = errlog
+        self.session = None
+        self.info = None
+        if wait:
+            self.wait_ready()
+
+    def wait_ready(self):
+        if self.info is not None:
+            return
         try:
             self.info = recv_msg(self.sock, 180)
         except (PeerGone, PeerTimeout) as e:
             self.proc.kill()
-            raise HarnessError("zygote %s did not start (%s); see %s" % (label, type(e).__name__, errlog))
+            raise HarnessError("zygote %s did not start (%s); see %s" % (self.label, type(e).__name__, self.errlog))
         if "ready" not in self.info:
-            raise HarnessError("zygote %s: unexpected hello %r" % (label, self.info))
-        self.session = None
+            raise HarnessError("zygote %s: unexpected hello %r" % (self.label, self.info))
 
     def fork(self, init):
         if self.session is not None and self.session.alive:
@@ -165,9 +173,11 @@ class LaneCtx:
         self.errdir = errdir
         ea = os.path.join(errdir, tag + "-A.err") if errdir else "-"
         eb = os.path.join(errdir, tag + "-B.err") if errdir else "-"
-        self.A = Zygote(hs_a, ea, repo, "A")
+        self.A = Zygote(hs_a, ea, repo, "A", wait=False)      # both interpreters import concurrently
         try:
-            self.B = Zygote(hs_b, eb, repo, "B")
+            self.B = Zygote(hs_b, eb, repo, "B", wait=False)
+            self.A.wait_ready()
+            self.B.wait_ready()
         except BaseException:
             self.A.close()
             raise
